@@ -103,21 +103,61 @@ def stages_env(rj):
     return json.dumps(st)
 
 
+REQUEST_TIMEOUT_S = 90
+
+
 def run_harness(ck, reqs, tag, stages):
-    path = os.path.join(ck.work, tag + ".jsonl")
-    with open(path, "w") as f:
-        for r in reqs:
-            f.write(json.dumps(r) + "\n")
-    rc, out = vlib.sh([vlib.harness_bin("c01"), "sql", path], env={"VERIF_STAGES": stages}, timeout=3000)
+    """Runs the requests through the c01 harness binary.  The optimizer is synchronous CPU-bound
+    code: a statement that does not come back (egg not terminating) cannot be cancelled from
+    inside, so the harness process is watched from here: no answer line for REQUEST_TIMEOUT_S
+    seconds kills it, the pending request is answered `timeout`, and the rest is resumed."""
+    import select
+    import subprocess
     res = {}
-    for line in out.split("\n"):
-        line = line.strip()
-        if line.startswith("{"):
-            try:
-                j = json.loads(line)
-                res[j["id"]] = j
-            except ValueError:
-                pass
+    pending = list(reqs)
+    round_ = 0
+    while pending:
+        round_ += 1
+        path = os.path.join(ck.work, "%s.%d.jsonl" % (tag, round_))
+        with open(path, "w") as f:
+            for r in pending:
+                f.write(json.dumps(r) + "\n")
+        env = dict(vlib.ENV)
+        env["VERIF_STAGES"] = stages
+        p = subprocess.Popen([vlib.harness_bin("c01"), "sql", path], env=env, stdout=subprocess.PIPE, stderr=subprocess.DEVNULL, text=True)
+        answered = 0
+        timed_out = False
+        while True:
+            ready, _, _ = select.select([p.stdout], [], [], REQUEST_TIMEOUT_S)
+            if not ready:
+                timed_out = True
+                p.kill()
+                break
+            line = p.stdout.readline()
+            if not line:
+                break
+            line = line.strip()
+            if line.startswith("{"):
+                try:
+                    j = json.loads(line)
+                    res[j["id"]] = j
+                    answered += 1
+                except ValueError:
+                    pass
+        p.wait()
+        if timed_out and answered < len(pending):
+            hung = pending[answered]
+            res[hung["id"]] = {"id": hung["id"], "setup_ok": True, "setup_msg": "", "timeout": True,
+                               "results": [{"class": "timeout", "msg": "no answer within %d s (harness killed)" % REQUEST_TIMEOUT_S} for _ in hung["queries"]]}
+            pending = pending[answered + 1:]
+        elif answered < len(pending) and not timed_out:
+            # the harness died (abort): answer the request it was on and go on
+            hung = pending[answered]
+            res[hung["id"]] = {"id": hung["id"], "setup_ok": True, "setup_msg": "", "timeout": False,
+                               "results": [{"class": "panic", "msg": "harness process died"} for _ in hung["queries"]]}
+            pending = pending[answered + 1:]
+        else:
+            pending = []
     return res
 
 
@@ -478,10 +518,15 @@ def run(ck):
                 continue
             # differs.  Is it explained by the rules of ONE recorded finding (the answer is the
             # reference's again once exactly those rules are left out)?
-            explained = (refname != "off") or (key(cu) == key(off))
+            explained = (refname != "off") or (key(cu) == key(off)) or on["class"] == "timeout"
             culprit = None
+            if on["class"] == "timeout":
+                # try the non-termination finding first (every other attempt would wait for the watchdog)
+                kf_try = sorted(kf_excl, key=lambda se: 0 if "does-not-terminate" in se[0] else 1)[:1]
+            else:
+                kf_try = [se for se in kf_excl if "does-not-terminate" not in se[0]]
             if explained:
-                for sig, ex in kf_excl:
+                for sig, ex in kf_try:
                     one = run_harness(ck, [{"id": "one", "engine": eng, "setup": c["setup"], "queries": [{"sql": c["sql"], "opt": "custom", "exclude": ex, "plans": True}]}], "one%d" % k, stages).get("one")
                     if one and one["results"] and not has_nl_outer(one["results"][0].get("optimized")) and key(one["results"][0]) == key(ref):
                         culprit = sig
